@@ -118,6 +118,7 @@ var crashablePoints = []string{
 var dsmPoints = []string{
 	"CreateDataset.afterNextID", "CreateDataset.afterRecord", "UpdateDataset.afterMove", "UpdateDataset.afterTombstone",
 	"DeleteDataset.afterRecordDelete", "DeleteDataset.afterDeletedSet", "gc.beforeDeleteBatch",
+	"compact.beforeFlush", "compact.afterFlush",
 }
 
 func pointClass(name string) string { return name }
@@ -155,6 +156,16 @@ func (r *CrashRun) verifyState(cs *crashState) *Violation {
 	var last *Violation
 	var msgs []string
 	matched := -1
+	if cs.inflight >= 0 && cs.inflight < len(r.Sc.Ops) && r.Sc.Ops[cs.inflight].K == "compact" {
+		// any prefix of the flushes may have landed: the feed may lack a subset of the removable versions
+		mc := m0.Clone()
+		if v := CheckCompactedFeed(h, mc, r.Sc.Ops[cs.inflight].DS, prop); v != nil {
+			v.Signature = "crash-during-compaction:" + v.Signature + "@" + cs.class
+			v.Message = fmt.Sprintf("after crash at %s: %s", cs.desc, v.Message)
+			return v
+		}
+		cands = []*Model{mc}
+	}
 	for ci, m := range cands {
 		v := r.checkAgainst(h, m)
 		if v == nil {
@@ -315,6 +326,9 @@ func RunCrashScenario(sc *Scenario) (vd *Verdict) {
 		if sc.Property == "C07" {
 			vd.Nontrivial = r.Stats["mgmt_ops"] >= 1 && r.Stats["commits"] >= 1
 		}
+		if sc.Property == "C12" {
+			vd.Nontrivial = r.Stats["compactions"] >= 1 && r.Stats["crash_states_verified"] >= 1
+		}
 	}()
 	armed := map[string]string{} // "point#hit" -> kind
 	for _, f := range sc.Faults {
@@ -374,6 +388,27 @@ func RunCrashScenario(sc *Scenario) (vd *Verdict) {
 				r.Stats["ctx_txns"]++
 			}
 			werr = st.ExecuteTransaction(t)
+		case "dup":
+			mgmt = true
+			if ds := r.H.Dataset(op.DS); ds != nil {
+				ok, err := ds.VerifInjectDuplicate(r.H.curie(op.S), time.Now().UnixNano())
+				if err == nil && ok {
+					if cur := r.M.DS[op.DS].LatestOf(markerToFull(op.S)); cur != nil {
+						r.M.DS[op.DS].ForceAppend(cur)
+						r.Stats["legacy_duplicates"]++
+					}
+				}
+			}
+		case "compact":
+			mgmt = true
+			werr = r.H.Compact(op.DS, op.N)
+			if werr == nil {
+				r.Stats["compactions"]++
+				if v := r.CheckAfterCompaction(op.DS); v != nil {
+					fail(v, i)
+					return
+				}
+			}
 		case "grab":
 			if d := r.H.Dataset(op.DS); d != nil {
 				r.grabbed[op.DS] = &grabbedDS{ds: d, cur: op.DS}
